@@ -30,7 +30,7 @@ def signature(mm):
     return 'C15:' + mm.name + ':' + mm.model.split(' ')[0] + '/' + ' '.join(mm.impl.split(' ')[:2])
 
 
-def build(ty1, ty2, rows, nother, order, by, order_by=None, having=None):
+def build(ty1, ty2, rows, nother, order, by, order_by=None, having=None, limit=None):
     """SELECT with targets arranged by `order` (a permutation placing k1, k2 and the aggregates)."""
     table = impl.HTable('t', [('p', gen_sql.PYTYPES[ty1]), ('q', gen_sql.PYTYPES[ty2]), ('v', int), ('w', Decimal)], rows)
     aggs = [ast.Target(ast.Function('sum', [ast.Column('v')]), 's'),
@@ -50,8 +50,9 @@ def build(ty1, ty2, rows, nother, order, by, order_by=None, having=None):
     else:
         pv = ast.PivotBy([pos1, pos2])
     group = ast.GroupBy([ast.Column('p'), ast.Column('q')], having)
-    sel = ast.Select(targets, ast.Table('t'), None, group, order_by, pv, None, None)
-    plain = ast.Select(targets, ast.Table('t'), None, group, None, None, None, None)
+    # LIMIT cuts the rows that are pivoted (the un-pivoted result), not the pivoted table
+    sel = ast.Select(targets, ast.Table('t'), None, group, order_by, pv, limit, None)
+    plain = ast.Select(targets, ast.Table('t'), None, group, order_by if limit is not None else None, None, limit, None)
     return table, sel, plain, pos1 - 1, pos2 - 1
 
 
@@ -164,7 +165,10 @@ def random_layer(ctx, ncases):
         if rng.chance(1, 5):
             order_by = (order_by or []) + [ast.OrderBy(ast.Function('count', [ast.Column('w')]), ast.Ordering(rng.below(2)))]
             ctx.count('with-order-by-aggregate')
-        table, sel, plain, c1, c2 = build(ty1, ty2, rows, nother, order, rng.choice(['name', 'pos', 'name-pos', 'pos-name']), order_by, having)
+        limit = rng.range(0, 6) if rng.chance(1, 4) else None
+        if limit is not None:
+            ctx.count('with-limit')
+        table, sel, plain, c1, c2 = build(ty1, ty2, rows, nother, order, rng.choice(['name', 'pos', 'name-pos', 'pos-name']), order_by, having, limit)
         SqlCase([table], sel, name='random').check(ctx, nontrivial=len(rows) >= 2)
         unpivot_oracle(ctx, table, sel, plain, c1, c2)
         if ctx.stop():
